@@ -110,10 +110,14 @@ def work(case):
                     fail = bad("history-not-append", "local step changed the history of run %s other than by appending the event" % key[2],
                                dict(before=h0, after=h1))
             elif op[0] == "remote" and (i1, h1) != (i0, h0):
-                recs = [r for r in op[1]["upd"] if str(r["id"]) == key[2] or True]
                 n0 = sum(len(es) for _, es in h0)
                 cands = []
+                single = bool(pats.get((key[0], key[1]), {}).get("single"))
                 for r in op[1]["upd"]:
+                    # only a record of this run's own pattern, naming this run (or, for a singleton pattern, standing
+                    # for its one run under the peer's identifier) can have moved it
+                    if (PL.phname(r["ph"]), PL.patname(r["pat"])) != (key[0], key[1]) or (str(r["id"]) != key[2] and not single):
+                        continue
                     hr = [(PL.gname(g), ["e%d" % e[0] for e in es]) for g, es in r["hist"]]
                     nr = sum(len(es) for _, es in hr)
                     if (r["idx"], hr) == (i1, h1) and (r["idx"] > i0 or (r["idx"] == i0 and nr > n0)):
